@@ -27,11 +27,17 @@ MapKey(map, k) == IF k + 1 <= Len(map) THEN map[k + 1] ELSE k
 RECURSIVE Subst(_, _)
 Subst(m, map) ==
   IF m.f \in {"pk_k", "pk_h"} THEN [m EXCEPT !.n = MapKey(map, m.n)]
-  ELSE IF m.f \in {"multi", "multi_a"} THEN [m EXCEPT !.ks = [q \in 1..Len(m.ks) |-> MapKey(map, m.ks[q])]]
+  ELSE IF m.f \in {"multi", "multi_a", "sortedmulti", "sortedmulti_a"} THEN [m EXCEPT !.ks = [q \in 1..Len(m.ks) |-> MapKey(map, m.ks[q])]]
   ELSE [m EXCEPT !.xs = [q \in 1..Len(m.xs) |-> Subst(m.xs[q], map)]]
 
 SubstElem(e, map) == IF e.t \in {"key", "kh"} THEN [e EXCEPT !.k = MapKey(map, e.k)] ELSE e
 SubstScript(ops, map) == [q \in 1..Len(ops) |-> [ops[q] EXCEPT !.e = SubstElem(ops[q].e, map)]]
+
+\* "the original script with the mapped keys substituted": position by position, except that a
+\* sorted multisig is by definition re-sorted over the mapped keys (substitute in the AST, encode)
+RECURSIVE HasSorted(_)
+HasSorted(m) == m.f \in SortedFrags \/ \E q \in 1..Len(m.xs) : HasSorted(m.xs[q])
+ExpectedScript(ev, m, map) == IF HasSorted(m) THEN Encode(Subst(m, map), ev.ctx) ELSE SubstScript(ev.script, map)
 
 JudgeEvent(ev) ==
   ~ev.have \/
@@ -58,7 +64,7 @@ JudgeEvent(ev) ==
                \/ Report("C20", IF t.st = "err" THEN "translation_fails_although_mapping_succeeds" ELSE "translation_succeeds_although_mapping_fails", ev, <<t.name, t.msg>>))
            /\ (t.st # "ok" \/
                /\ (t.ast = Subst(m, t.map) \/ Report("C20", "translated_structure_differs", ev, t.name))
-               /\ (t.script = SubstScript(ev.script, t.map) \/ Report("C20", "translated_script_is_not_substitution", ev, t.name))
+               /\ (t.script = ExpectedScript(ev, m, t.map) \/ Report("C20", "translated_script_is_not_substitution", ev, t.name))
                /\ (t.ty_same \/ Report("C20", "translation_changed_type", ev, t.name))
                /\ (t.name # "identity" \/ t.eq_orig \/ Report("C20", "identity_translation_not_equal", ev, ""))))
        \* a mapping to a context-illegal key may only fail where the context forbids the key
@@ -76,7 +82,7 @@ JudgeEvent(ev) ==
       /\ (d.rename_st # "ok" \/
           /\ (SeqBag(d.rename_keys) = SeqBag([q \in 1..Len(ik \o ks) |-> MapKey(ev.maps[2].map, (ik \o ks)[q])])
               \/ Report("C20", "descriptor_translated_keys_differ", ev, d.rename_keys))
-          /\ (d.rename_script = SubstScript(ev.script, ev.maps[2].map)
+          /\ (d.rename_script = ExpectedScript(ev, m, ev.maps[2].map)
               \/ Report("C20", "descriptor_translated_script_is_not_substitution", ev, d.wrap))))
 
 Inv == i > 0 => JudgeEvent(Rec[i])
